@@ -576,6 +576,9 @@ func (u *Unit) specCall(st *State, e *SExpr, env *SpecEnv, q *bool) *Val {
 			return boolVal("true")
 		}
 		return boolVal("false")
+	case "sameSlice": // sameSlice(a, b): same contents and length
+		a, b := ev(0), ev(1)
+		return boolVal(tAnd(tEq(a.Arr, b.Arr), tEq(a.Len, b.Len)))
 	case "allocated": // allocated(p): p refers to an object that exists in the current state
 		x := ev(0)
 		return boolVal(app("<=", x.S, st.wm))
